@@ -248,6 +248,11 @@ TErrs ==
     /\ \A i \in 1..Len(Ev.either) : Ev.either[i].text = EitherText(Ev.either[i].side, Ev.either[i].name)
     /\ Ev.defaults = <<"WithVersion", "Default", "Optimistic">>
 
+\* Debug formatting of the public value types: the text is unspecified; every call returns and is not empty
+TDbg ==
+    /\ IsEvent("dbg") /\ NoPanic
+    /\ Len(Ev.lens) >= 16 /\ \A i \in 1..Len(Ev.lens) : Ev.lens[i] > 0
+
 \* PartialEq / Clone / Copy on hash values: equal iff the byte images are equal
 TEq ==
     /\ IsEvent("eq") /\ Clean
@@ -255,7 +260,7 @@ TEq ==
 
 TraceNext ==
     \/ (TFmt /\ TRUE) \/ TFmtSweep \/ TParse \/ TParseSweep \/ TFromBytes \/ TStore
-    \/ TSer \/ TDe \/ TDeDoc \/ TAgg \/ TOpts \/ TErrs \/ TEq
+    \/ TSer \/ TDe \/ TDeDoc \/ TAgg \/ TOpts \/ TErrs \/ TEq \/ TDbg
     \/ TCmp \/ TDistMatrix \/ TBodyMatrix \/ TBodyDist \/ TCmpStr \/ TDecodeMatrix \/ TEncodeTable
 
 TraceInit == l = 1
